@@ -14,5 +14,5 @@ RULE = (
 ASSUMPTIONS = ["payloads other than the new node id are unconstrained"]
 REQUIRED_CLASSES = {t: ["nested:swap", "nested:paint", "refused:add_edge", "exhausted_redo"]
                     for t in ("quick", "thorough")}
-run_shard, replay, minimise = make(C20Oracle, quick=(480, 30), thorough=(6400, 50), profile="general",
+run_shard, replay, minimise = make(C20Oracle, quick=(3200, 30), thorough=(6400, 50), profile="general",
                                    refusal_bias=0.12)
